@@ -118,6 +118,32 @@ def handle (s : DState) (fs : List String) : DState × String :=
         (⟨s.w, st'⟩, match r with | .ok _ => "ok" | .error e => "err:" ++ showErr e)
       else (s, "bad-op")
     | _, _, _ => (s, "bad-op")
+  | ["isa", table, t, b] =>
+    match listOpt ((decList table).map fun x => if x = "n" then some (none : Option Nat) else (decNat x).map some),
+          decNat t, decNat b with
+    | some tt, some t, some b =>
+      if declaredInOrder tt && decide (t < tt.length) then (s, if typeIs tt t b then "1" else "0") else (s, "bad-table")
+    | _, _, _ => (s, "bad-op")
+  | "find" :: comp :: flag :: pats =>
+    match decNat comp, listOpt (pats.map decStr) with
+    | some c, some ps =>
+      if flag = "L" ∨ (flag = "T" ∧ ps.isEmpty) then
+        let p : Option (List Str) := if flag = "L" then some ps else none
+        let (st', r) := findSpec s.w s.st c p
+        (⟨s.w, st'⟩, match r with | .ok _ => "ok" | .error .raw => "err:findRaw" | .error (.add e) => "err:" ++ showErr e)
+      else (s, "bad-op")
+    | _, _ => (s, "bad-op")
+  | "loads" :: entries =>
+    let rec pairs : List String → Option (List (Comp × Allow))
+      | [] => some []
+      | [_] => none
+      | c :: a :: rest =>
+        match decNat c, decAllow a, pairs rest with
+        | some c, some a, some r => some ((c, a) :: r)
+        | _, _, _ => none
+    match pairs entries with
+    | some es => (⟨s.w, loadsReg s.st es⟩, "ok")
+    | none => (s, "bad-op")
   | ["get", comp] =>
     match decNat comp with
     | some c =>
